@@ -761,6 +761,24 @@ func genCase(r *rand.Rand) Case {
 			c.Text = g.Prog.Text()
 		}
 	}
+	if r.IntN(8) == 0 {
+		// a variables document shared between scripts: entries this script does not declare
+		c.In.Vars["zz_not_declared_here"] = core.Pick(r, []string{"1", "x", "C:\\exports\\", "USD 5"})
+	}
+	if r.IntN(8) == 0 {
+		// texts that look like the comment syntax of "relaxed" JSON dialects, after a value that
+		// ends in a backslash somewhere earlier in the document
+		if c.In.Meta == nil {
+			c.In.Meta = map[string]map[string]string{}
+		}
+		if c.In.Meta["zz:links"] == nil {
+			c.In.Meta["zz:links"] = map[string]string{}
+		}
+		c.In.Meta["zz:links"]["url"] = core.Pick(r, []string{"http://example.com//x", "see /* this */ or // that", "a // b"})
+		if r.IntN(2) == 0 {
+			c.In.Vars["zz_dir"] = "C:\\exports\\"
+		}
+	}
 	if r.IntN(25) == 0 {
 		// a payload larger than any default line or pipe buffer (64 KiB), and below the
 		// 128 KiB the kernel allows for one argument: it travels in and comes out again
